@@ -46,6 +46,7 @@ add('C09', 'pack-size-boundary', 'R09.4', patch='seeded/C01-m1/patch.diff')
 add('C09', 'index-default-0', 'R09.5', patch='seeded/C02-m2/patch.diff')
 add('C02', 'input-offset', 'R01.1', [E('src/raw/node.rs', "                 - self.trans_index_size(node.version, node.ntrans)\n                 - i\n                 - 1; // the input byte", "                 - self.trans_index_size(node.version, node.ntrans)\n                 - i; // the input byte")])
 add('C02', 'scan-position-not-mirrored', 'R02.2', [E('src/raw/node.rs', 'inputs.iter().position(|&b2| b == b2).map(|i| node.ntrans - i - 1)', 'inputs.iter().position(|&b2| b == b2)')])
+add('C02', 'index-absent-by-match-255', 'R02.2', [E('src/raw/node.rs', "            let i = node.data[start + b as usize] as usize;\n            if i >= node.ntrans {\n                None\n            } else {\n                Some(i)\n            }", "            match node.data[start + b as usize] {\n                255 => None,\n                i => Some(i as usize),\n            }")])
 add('C02', 'contains-ignores-finality', 'R02.1', [E('src/raw/mod.rs', "                Some(i) => self.node(node.transition_addr(i)),\n            }\n        }\n        node.is_final()", "                Some(i) => self.node(node.transition_addr(i)),\n            }\n        }\n        true")])
 add('C12', 'mru-swap-forgotten', 'R12.5', [E('src/raw/registry.rs', "            self.cells[1].node.clone_from(node);\n            self.cells.swap(0, 1);", "            self.cells[1].node.clone_from(node);")])
 add('C12', 'address-never-recorded', 'R12.1', [E('src/raw/build.rs', "        if let RegistryEntry::NotFound(cell) = entry {\n            cell.insert(self.last_addr);\n        }", "")])
